@@ -144,10 +144,8 @@ class Ctx:
         missing = [n for n in self.obligations if n not in self.discharged]
         if missing:
             raise Broken("axiom audit: no report for " + ", ".join(missing), out[-2000:])
-        # no sorry / admit / custom axioms in the sources of the library
-        rc, out = sh(["grep", "-rnE", r"\bsorry\b|\badmit\b|^axiom |native_decide|bv_decide|implemented_by|unsafe |maxHeartbeats 0",
-                      "--include=*.lean", os.path.join(LEAN, "Emerge")])
-        hits = [l for l in out.splitlines() if l.strip() and not re.search(r":\s*(--|/-)", l)]
+        # no sorry / admit / custom axioms in the sources of the library (comments stripped)
+        hits = forbidden_constructs()
         if hits:
             raise Broken("forbidden construct in Lean sources", "\n".join(hits[:10]))
         self.note("proofs re-checked: %d theorems, axioms within {propext, Classical.choice, Quot.sound}" % len(self.discharged))
@@ -241,6 +239,46 @@ class Ctx:
             print(l, flush=True)
         print("%s: %s (%.1fs)" % (self.pid, "OK" if rc == 0 else "FAILED", time.time() - self.t0), flush=True)
         return rc
+
+
+def strip_lean_comments(src):
+    out, i, depth, n = [], 0, 0, len(src)
+    while i < n:
+        if src.startswith("/-", i):
+            depth += 1; i += 2
+        elif depth and src.startswith("-/", i):
+            depth -= 1; i += 2
+        elif depth:
+            if src[i] == "\n":
+                out.append("\n")
+            i += 1
+        elif src.startswith("--", i):
+            while i < n and src[i] != "\n":
+                i += 1
+        elif src[i] == '"':
+            j = i + 1
+            while j < n and src[j] != '"':
+                j += 2 if src[j] == "\\" else 1
+            out.append('""'); i = j + 1
+        else:
+            out.append(src[i]); i += 1
+    return "".join(out)
+
+
+FORBIDDEN = re.compile(r"\bsorry\b|\badmit\b|^\s*axiom\s|native_decide|bv_decide|implemented_by|\bunsafe\s|maxHeartbeats\s+0\b", re.M)
+
+
+def forbidden_constructs():
+    hits = []
+    for root, _, files in os.walk(os.path.join(LEAN, "Emerge")):
+        for f in files:
+            if f.endswith(".lean"):
+                p = os.path.join(root, f)
+                code = strip_lean_comments(open(p).read())
+                for ln, line in enumerate(code.split("\n"), 1):
+                    if FORBIDDEN.search(line):
+                        hits.append("%s:%d: %s" % (p, ln, line.strip()))
+    return hits
 
 
 def load_known():
